@@ -1783,6 +1783,20 @@ func main() {
 			}
 		} else {
 			time.Sleep(1500 * time.Millisecond)
+			// what a lost late drop (d2) or rows replayed from the WAL (d3, d4) left behind stays until something else removes it:
+			// the phases that follow classify wrong answers by the same subsets
+			lateSets := func(rn *runner) {
+				rn.sets, rn.prefer = nil, nil
+				if rn.out.Drop2 != nil || rn.late {
+					rn.sets = map[string][]row{}
+					if rn.out.Drop2 != nil {
+						rn.sets["d2"] = rn.dropped2
+					}
+					if rn.late {
+						rn.sets["d3"], rn.sets["d4"] = rn.dropped3, rn.dropped4
+					}
+				}
+			}
 			pstep("after-crash", func(rn *runner) error {
 				if rn.out.Drop5 != nil {
 					rn.readAll("after-crash", false)
@@ -1864,10 +1878,15 @@ func main() {
 				})
 				pstep("after-recreate", func(rn *runner) error {
 					if rn.out.Drop5 != nil {
+						lateSets(rn)
 						rn.readAll("after-recreate", false)
+						rn.sets = nil
 					}
 					return nil
 				})
+				// everything written so far goes to files first: a kill -9 that cuts a (cold) flush between the file and the removal of
+				// its WAL leaves rows in both, and the replay then makes count() see them twice - crash recovery, not dropping
+				_ = srv.ctrl("mod=flush")
 				step("drop5-measurement", func(rn *runner) error { return catalogueDrop(rn, true) })
 				srv.kill()
 				if err := srv.start(); err != nil {
@@ -1878,7 +1897,9 @@ func main() {
 					time.Sleep(1500 * time.Millisecond)
 					pstep("after-recreate-restart", func(rn *runner) error {
 						if rn.out.Drop5 != nil {
+							lateSets(rn)
 							rn.readAll("after-recreate-restart", false)
+							rn.sets = nil
 						}
 						return nil
 					})
@@ -1905,7 +1926,9 @@ func main() {
 						pstep("after-recreate-measurement", func(rn *runner) error {
 							if rn.out.Drop5 != nil && rn.out.Drop5.Kind == "measurement" {
 								rn.waitVisible()
+								lateSets(rn)
 								rn.readAll("after-recreate-measurement", false)
+								rn.sets = nil
 							}
 							return nil
 						})
